@@ -91,6 +91,7 @@ type trans struct {
 	retCount   int
 	heapReads  int
 	dispatched map[string]bool
+	axiomPkgs  map[string]bool
 }
 
 func (tr *trans) errorf(f string, a ...any) {
@@ -595,6 +596,18 @@ func (tr *trans) funcEnv(st State) *Env {
 	for name, fr := range tr.pure {
 		env.vars[name] = SV{kind: "fn", fn: fr, sort: "fn"}
 	}
+	env.addrOf = func(name string) (SV, bool) {
+		for _, b := range tr.fn.Blocks {
+			for _, in := range b.Instrs {
+				if al, ok := in.(*ssa.Alloc); ok && al.Comment == name {
+					if _, done := tr.vals[al]; done {
+						return env.goSV(tr.val(al), al.Type()), true
+					}
+				}
+			}
+		}
+		return SV{}, false
+	}
 	return env
 }
 
@@ -723,11 +736,30 @@ func (tr *trans) run() {
 	}
 }
 
-// axioms emits all axioms of contract files (they are global facts).
+// axioms emits the axioms of the function's own package; axioms of other packages are pulled in
+// when one of their contracts or spec functions is used (needAxioms).
 func (tr *trans) axioms() {
+	pk := ""
+	if tr.fc != nil {
+		pk = tr.fc.PkgPath
+	}
+	tr.needAxioms(pk)
+}
+
+func (tr *trans) needAxioms(pkgPath string) {
+	if tr.axiomPkgs == nil {
+		tr.axiomPkgs = map[string]bool{}
+	}
+	if tr.axiomPkgs[pkgPath] {
+		return
+	}
+	tr.axiomPkgs[pkgPath] = true
 	for _, ax := range tr.prog.CS.Axioms {
-		env := &Env{tr: tr, vc: tr.vc, pkgPath: ax.PkgPath, st: tr.entry, old: tr.entry, vars: map[string]SV{}, lets: map[string]Expr{}, errs: &tr.errs}
-		tr.vc.assume(env.elabBool(ax.E))
+		if ax.PkgPath != pkgPath {
+			continue
+		}
+		env := &Env{tr: tr, vc: tr.vc, pkgPath: ax.PkgPath, st: State{}, old: State{}, vars: map[string]SV{}, lets: map[string]Expr{}, errs: &tr.errs}
+		tr.vc.funs = append(tr.vc.funs, "(assert "+env.elabBool(ax.E)+")")
 		tr.note("axiom " + ax.Name)
 	}
 }
@@ -913,7 +945,19 @@ func (tr *trans) varAt(h *ssa.BasicBlock, name string, predIdx int, st State) (S
 func (tr *trans) loopEnv(li *loopInfo, predIdx int, st State) *Env {
 	env := tr.funcEnv(st)
 	h := tr.fn.Blocks[li.head]
-	env.lookup = func(name string) (SV, bool) { return tr.varAt(h, name, predIdx, st) }
+	env.lookup = func(name string) (SV, bool) {
+		if name == "rangepos" {
+			// position of the string iterator feeding this loop
+			for _, in := range h.Instrs {
+				if nx, ok := in.(*ssa.Next); ok && nx.IsString {
+					sn := "iter." + nx.Iter.(*ssa.Range).Name() + ".pos"
+					tr.stateSort[sn] = "Int"
+					return env.intSV(tr.getState(st, sn)), true
+				}
+			}
+		}
+		return tr.varAt(h, name, predIdx, st)
+	}
 	// names of phis shadow parameters
 	for _, in := range h.Instrs {
 		phi, ok := in.(*ssa.Phi)
